@@ -32,7 +32,8 @@ REQUIRED_BUCKETS = {"quick": ["op:+", "op:*", "op:@", "nested:product-in-sum", "
                               "python-component", "oriented-component", "lane:asan", "magnetic:all-sld-components", "magnetic:with-nonmagnetic-bystander",
                               "magnetic:with-python-bystander", "component-with-empty-mesh",
                               "no-sld-parameter-in-mixture", "magnetic:no-positive-component",
-                              "precision:single", "magnetic:bystander-with-direction-angles"]}
+                              "precision:single", "magnetic:bystander-with-direction-angles",
+                              "dispersity:more-distributions-than-one-kernel-loops"]}
 REQUIRED_BUCKETS["thorough"] = REQUIRED_BUCKETS["quick"]
 
 SFACTORS = ["hardsphere", "hayter_msa", "squarewell", "stickyhardsphere"]
@@ -103,6 +104,11 @@ def gen_expr(rng, force=None):
         terms = [[nos[int(rng.integers(len(nos)))] for _ in t] for t in terms]
         terms[0][0] = disp[int(rng.integers(len(disp)))]
         return terms
+    if force.get("manypd"):
+        # every component with two size distributions: more distributions in the whole expression than one kernel
+        # has loops for, each component inside its own budget
+        many = ["cylinder", "ellipsoid", "core_shell_sphere", "hollow_cylinder", "core_shell_cylinder"]
+        return [[many[int(rng.integers(len(many)))] for _ in t] for t in terms]
     if force.get("python"):
         py = [m for m in leaf_pool() if sas.is_python(m)]
         terms[-1][0] = py[int(rng.integers(len(py)))]
@@ -123,7 +129,8 @@ def gen_cases(tier, seed):
               {"single": True, "python": True, "shape": ["L", "L"]}, {"single": True, "python": True, "shape": ["LL"]},
               {"single": True, "shape": ["L", "L"]}, {"mag": "all", "shape": ["L", "L", "L"]},
               {"nosld": True, "shape": ["L", "L"]}, {"nosld": True, "shape": ["LL"]}, {"nosld": True, "shape": ["L", "LL"]},
-              {"empty": True, "shape": ["L", "L"]}, {"empty": True, "shape": ["L", "L", "L"]}, {"empty": True, "shape": ["LL", "L"]}]
+              {"empty": True, "shape": ["L", "L"]}, {"empty": True, "shape": ["L", "L", "L"]}, {"empty": True, "shape": ["LL", "L"]},
+              {"manypd": True, "shape": ["L", "L", "L"]}, {"manypd": True, "shape": ["LL", "L"]}, {"manypd": True, "shape": ["LLL"]}]
     for k in range(n):
         cases.append({"id": "expr/%04d" % k, "k": k, "seed": seed, "force": forces[k % len(forces)],
                       "dim": "2d" if (k % 3 == 1 or forces[k % len(forces)].get("mag")) else "1d", "lane": "plain", "group": "g%d" % (k % 64), "cost": 1})
@@ -137,7 +144,8 @@ def gen_cases(tier, seed):
 # parameters
 # ---------------------------------------------------------------------------
 
-def leaf_parameters(factor, rng, seedk, dim, want_zero=False, want_pd=True, want_mag=False, want_empty=False):
+def leaf_parameters(factor, rng, seedk, dim, want_zero=False, want_pd=True, want_mag=False, want_empty=False,
+                    force_npd=None):
     """Parameter dict (leaf's own names) for one factor evaluated alone."""
     i = sas.info(factor) if "@" not in factor else load_info(factor)
     pars = sas.base_pars(i, seedk)
@@ -156,6 +164,9 @@ def leaf_parameters(factor, rng, seedk, dim, want_zero=False, want_pd=True, want
         cand = [p for p in cand if p.name != "radius_effective"]
         rng.shuffle(cand)
         npd = min(len(cand), int(rng.integers(0, 3)), i.parameters.max_pd)
+        if force_npd:
+            cand = [p for p in cand if p.type == "volume"] + [p for p in cand if p.type != "volume"]
+            npd = min(len(cand), force_npd, i.parameters.max_pd)
         for p in cand[:npd]:
             if p.type == "orientation":
                 sas.add_pd(pars, p, "gaussian", int(rng.integers(2, 5)), float(rng.uniform(3, 20)), 2.0)
@@ -292,7 +303,8 @@ def run_case(case, rec):
                                           want_zero=wz, want_pd=True,
                                           want_mag=want_mag and not (partial_mag and (ti + fi) % 2 == 1),
                                           want_empty=bool((case.get("force") or {}).get("empty")) and ti == len(terms) - 1 - (case["k"] % 2)
-                                          and fi == 0)
+                                          and fi == 0,
+                                          force_npd=2 if (case.get("force") or {}).get("manypd") else None)
             row.append((f, i, lp, tags))
             tags_all.append(tags)
         leaves.append(row)
@@ -499,6 +511,10 @@ def run_case(case, rec):
         rec.bucket("zero:first-factor")
     if sum(1 for t in tags_all if "pd" in t) >= 2:
         rec.bucket("dispersity:>=2-components")
+    ndist = sum(1 for row in leaves for _f, _i, lp_, _t in row for kk, vv in lp_.items()
+                if kk.endswith("_pd_n") and vv > 1 and lp_.get(kk[:-2], 0) > 0)
+    if ndist > 5:
+        rec.bucket("dispersity:more-distributions-than-one-kernel-loops")
     if any("mag" in t for t in tags_all):
         rec.bucket("magnetic")
     for row in leaves:
